@@ -42,6 +42,20 @@ func (e *Engine) addVC(st *State, kind, label string, cond *smt.Term, info strin
 }
 
 func (e *Engine) nondet(st *State, name string, s smt.Sort) *smt.Term {
+	if e.Concrete != nil {
+		n := st.uniqueName(name)
+		if v, ok := e.Concrete.Values[n]; ok && v.Sort == s {
+			return v
+		}
+		switch s.K {
+		case smt.KBool:
+			return smt.False
+		case smt.KBV:
+			return smt.BVC(0, s.W)
+		default:
+			return smt.FPConst(0, s)
+		}
+	}
 	v := smt.Var(st.uniqueName(name), s)
 	st.nondets = append(st.nondets, v)
 	return v
@@ -107,6 +121,11 @@ func registerZzv(e *Engine) {
 			c.E.abort("Choice arity must be concrete")
 		}
 		key := st.uniqueName("choice:" + name)
+		if c.E.Concrete != nil {
+			v := c.E.Concrete.Choices[key]
+			st.choices = append(st.choices, ChoiceRec{Name: key, V: v})
+			return one(st, smt.IntC(int64(v)))
+		}
 		var outs []Outcome
 		n := int(k.SInt())
 		for i := 0; i < n; i++ {
